@@ -44,6 +44,9 @@ SCHEMA = {
     'BionanoAlignment': {'alignmentId': INT, 'queryId': INT, 'referenceId': INT, 'queryStartPosition': INT, 'queryEndPosition': INT,
                          'referenceStartPosition': INT, 'referenceEndPosition': INT, 'reverseStrand': BOOL, 'confidence': REAL,
                          'cigarString': STR, 'queryLength': INT, 'referenceLength': INT, 'alignedPairs': LIST(OBJ('BenchmarkAlignedPair'))},
+    'BenchmarkAlignmentPosition': {'siteId': INT, 'position': REAL},
+    'BenchmarkAlignedPair': {'reference': OBJ('BenchmarkAlignmentPosition'), 'query': OBJ('BenchmarkAlignmentPosition')},
+    'BenchmarkAlignedPairWithDistance': {'distance': REAL},
     'AlignmentRowComparison': {'type': ENUM('AlignmentRowComparisonResultType'), 'identity': REAL, 'alignment1Coverage': REAL,
                                'alignment2Coverage': REAL, 'alignment1': OBJ('BionanoAlignment'), 'alignment2': OBJ('BionanoAlignment'),
                                'alignment1ExclusivePairs': LIST(OBJ('BenchmarkAlignedPair', 'BenchmarkAlignedPairWithDistance')),
@@ -80,8 +83,15 @@ SCHEMA = {
     'Args': {'primaryResolution': INT, 'primaryBlur': INT, 'secondaryResolution': INT, 'secondaryBlur': INT, 'secondaryMargin': INT,
              'minPeakDistance': INT, 'maxPairDistance': REAL, 'peakHeightThreshold': REAL, 'perfectMatchScore': REAL, 'distancePenaltyMultiplier': REAL,
              'unmatchedPenalty': REAL, 'minScore': REAL, 'breakSegmentThreshold': REAL, 'maxDifference': REAL, 'peaksCount': INT, 'outputMode': STR,
-             'segmentJoinMultiplier': REAL, 'sequentialityScore': INT, 'numberOfCpus': OPT(INT), 'disableProgressBar': BOOL},
+             'segmentJoinMultiplier': REAL, 'sequentialityScore': INT, 'numberOfCpus': OPT(INT), 'disableProgressBar': BOOL,
+             'referenceFile': OBJ('TextIO'), 'queryFile': OBJ('TextIO'), 'outputFile': OBJ('TextIO'), 'referenceIds': OPT(LIST(INT)), 'queryIds': OPT(LIST(INT))},
     'SequenceGenerator': {'resolution': INT, 'blurRadius': INT},
+    'Program': {'args': OBJ('Args'), 'referenceMaps': LIST(OMAP), 'queryMaps': LIST(OMAP), 'xmapReader': OBJ('XmapReader'), 'dispatcher': OBJ('Dispatcher'),
+                'workflowCoordinator': OBJ('_WorkflowCoordinator', '_MultiPassWorkflowCoordinator')},
+    'TextIO': {'name': STR},
+    'BionanoFileReader': {'headersLinePrefix': STR},
+    'CmapReader': {'reader': OPT(OBJ('BionanoFileReader'))},
+    'AlignmentResults': {'referenceFilePath': STR, 'queryFilePath': STR, 'rows': LIST(OBJ('AlignmentResultRow'))},
 }
 
 
